@@ -82,7 +82,7 @@ def gen_cases(tier, seed):
     for k in range(nrand):
         if rng.random() < 0.5:
             c = gen_config(rng, 6 if tier == "quick" else 12, 8)
-            if c["dtype"] == "int":
+            if c["dtype"] not in ("float", "complex"):
                 c["dtype"] = "float"
             names = list(c["layouts"])
             rng.shuffle(names)
